@@ -1063,6 +1063,32 @@ class PyCdlib:
                 if new_record.rock_ridge is None or new_record.rock_ridge.dr_entries.ce_record is None:
                     self._set_rock_ridge(rr)
 
+                # The continuation area has to be parsed before the record is
+                # classified below: a child link, a symlink or a name may be
+                # recorded there.
+                if new_record.rock_ridge is not None and new_record.rock_ridge.dr_entries.ce_record is not None:
+                    ce_record = new_record.rock_ridge.dr_entries.ce_record
+                    orig_pos = cdfp.tell()
+                    self._seek_to_extent(ce_record.bl_cont_area)
+                    cdfp.seek(ce_record.offset_cont_area, os.SEEK_CUR)
+                    con_block = cdfp.read(ce_record.len_cont_area)
+                    new_record.rock_ridge.parse(con_block, False,
+                                                new_record.rock_ridge.bytes_to_skip,
+                                                True, new_record.file_identifier())
+                    # The Rock Ridge version can only be inferred once both the
+                    # Directory Record and the Continuation Entry were parsed.
+                    self._set_rock_ridge(new_record.rock_ridge.rr_version)
+                    cdfp.seek(orig_pos)
+                    if not (dir_record.is_root and new_record.is_dot()):
+                        # The continuation entry of the root 'dot' record (the
+                        # ER record) always gets an extent of its own when
+                        # extents are assigned, so it is not part of the
+                        # shared continuation blocks.
+                        block = self.pvd.track_rr_ce_entry(ce_record.bl_cont_area,
+                                                           ce_record.offset_cont_area,
+                                                           ce_record.len_cont_area)
+                        new_record.rock_ridge.update_ce_block(block)
+
                 # Cache some properties of this record for later use.
                 is_symlink = new_record.is_symlink()
                 dots = new_record.is_dot() or new_record.is_dotdot()
@@ -1138,29 +1164,6 @@ class PyCdlib:
                         # size is wrong.  Set the lastbyte appropriately, which
                         # will eventually be used to fix the PVD size.
                         lastbyte = max(lastbyte, new_end)
-
-                if new_record.rock_ridge is not None and new_record.rock_ridge.dr_entries.ce_record is not None:
-                    ce_record = new_record.rock_ridge.dr_entries.ce_record
-                    orig_pos = cdfp.tell()
-                    self._seek_to_extent(ce_record.bl_cont_area)
-                    cdfp.seek(ce_record.offset_cont_area, os.SEEK_CUR)
-                    con_block = cdfp.read(ce_record.len_cont_area)
-                    new_record.rock_ridge.parse(con_block, False,
-                                                new_record.rock_ridge.bytes_to_skip,
-                                                True, new_record.file_identifier())
-                    # The Rock Ridge version can only be inferred once both the
-                    # Directory Record and the Continuation Entry were parsed.
-                    self._set_rock_ridge(new_record.rock_ridge.rr_version)
-                    cdfp.seek(orig_pos)
-                    if not (dir_record.is_root and new_record.is_dot()):
-                        # The continuation entry of the root 'dot' record (the
-                        # ER record) always gets an extent of its own when
-                        # extents are assigned, so it is not part of the
-                        # shared continuation blocks.
-                        block = self.pvd.track_rr_ce_entry(ce_record.bl_cont_area,
-                                                           ce_record.offset_cont_area,
-                                                           ce_record.len_cont_area)
-                        new_record.rock_ridge.update_ce_block(block)
 
                 if rr_cl:
                     child_links.append(new_record)
